@@ -31,6 +31,8 @@ type env struct {
 	httpBE *httpBackend
 	rawBE  *rawBackend
 	udpBE  *udpBackend
+	rawBE2 *rawBackend // tcp on the DNS backend's port
+	udpBE2 *udpBackend // udp on the raw backend's port
 	decoy  *decoy
 	sshBE  *sshBackend
 	h      *httpEnv
@@ -61,6 +63,12 @@ func startEnv(out string) *env {
 	}
 	if e.udpBE, err = newUDPBackend(fmt.Sprintf("127.0.0.1:%d", e.ports[pDNS])); err != nil {
 		hx.Fatal("udp backend: %v", err)
+	}
+	if e.rawBE2, err = newRawBackend(fmt.Sprintf("127.0.0.1:%d", e.ports[pDNS])); err != nil {
+		hx.Fatal("raw backend 2: %v", err)
+	}
+	if e.udpBE2, err = newUDPBackend(fmt.Sprintf("127.0.0.1:%d", e.ports[pRaw])); err != nil {
+		hx.Fatal("udp backend 2: %v", err)
 	}
 	if e.decoy, err = newDecoy(fmt.Sprintf("127.0.0.1:%d", e.ports[pDecoy])); err != nil {
 		hx.Fatal("decoy: %v", err)
